@@ -26,14 +26,14 @@ claim("C14",
       "Decides the structural conditions without which finished connections leave residue, on all paths: every completion-report channel "
       "can absorb all reports of its sender goroutines (capacity + guaranteed receives >= sends); after PipeData both ends are closed on "
       "every path (inside it, or in each caller, its defers, or its callers); after a failed AcceptStream no path returns to AcceptStream "
-      "without return / back-off (smux IsClosed() does not count: it stays false after a latched socket error). every handler that accepted a connection or stream closes it on each path on which it does not hand it on. the shared physical connection/session are replaced only under the mutex after a reuse test made under it (no orphaned session). a wrapper is marked closed only by its own Close. Does not measure goroutines, descriptors or CPU. Close of a carrier wrapper never waits for the peer without a bound. The completion-channel capacity rule also follows channels captured by the goroutine's closure.",
+      "without return / back-off (smux IsClosed() does not count: it stays false after a latched socket error). every handler that accepted a connection or stream closes it on each path on which it does not hand it on. the shared physical connection/session are replaced only under the mutex after a reuse test made under it (no orphaned session). a wrapper is marked closed only by its own Close. Does not measure goroutines, descriptors or CPU. Close of a carrier wrapper never waits for the peer without a bound. The completion-channel capacity rule also follows channels captured by the goroutine's closure. AcceptConnection closes the carrier on every failing return unless the error says it is closed already (R14.8).",
       "Not decided: measured footprint, library goroutines, carrier left open after a failed handshake.")
 
 claim("C15",
       "accept-loop shape analysis over SSA + synchronous call cone to blocking primitives",
       "Decides, for every listener accept loop of package server (socket, DNS-over-socket, KCP/UDP), that no call inside the loop that "
       "receives the accepted connection can wait for that peer (handshake read, TLS handshake, any Read) unless it is started with go; "
-      "no server-side function calls, while holding a mutex field, anything that locks that field again (self-deadlock of the DNS pruner wedges all later peers); accept loops do not park on channels; nothing that can wait for another party is reachable while the DNS user table lock or a server-wide mutex is held; the websocket router installs no middleware bounding requests in flight or their duration; lists every Server implementation and how its peers arrive. Structural necessary condition for 'a stalled peer delays only itself'. No answer is written to a peer, and nothing else waits for one, while a lock shared by all peers of a DNS endpoint is held. Every Lock in the DNS endpoint is released on every path out of the function (R15.6).",
+      "no server-side function calls, while holding a mutex field, anything that locks that field again (self-deadlock of the DNS pruner wedges all later peers); accept loops do not park on channels; nothing that can wait for another party is reachable while the DNS user table lock or a server-wide mutex is held; the websocket router installs no middleware bounding requests in flight or their duration; lists every Server implementation and how its peers arrive. Structural necessary condition for 'a stalled peer delays only itself'. No answer is written to a peer, and nothing else waits for one, while a lock shared by all peers of a DNS endpoint is held. Every Lock in the DNS endpoint is released on every path out of the function (R15.6). Every index / slice expression of the handshake parsers is proven in bounds: one peer's request line cannot panic the process that serves the others (R15.7).",
       "Not decided: fairness under load, time bounds, tls.Listen's lazy handshake; net/http's per-request goroutine is trusted.")
 
 claim("C17",
@@ -41,7 +41,7 @@ claim("C17",
       "Decides the ordering facts behind 'all data, then end-of-stream': in PipeData no close precedes a copier's completion report; a copier "
       "reports exactly once after io.Copy* and io.EOF only when the copy returned nil; both ends are closed after the pipe ends; the DNS "
       "tunnel's Read methods return io.EOF only under HasData()==false; the DNS client's Close sends the final ack and the Closed option "
-      "before closing its communicator on every live-session path. no per-channel failure path closes the session shared by the other channels. a reader+writer pair closes its write half on every path; after the first copier reported no close waits for the second report; every Write reports the full count on success; Structural, not a delivery proof. A deadline armed on a connection is disarmed in both directions before the connection lives on (a left-over write deadline loses the target's answer and the end-of-stream). SO_LINGER is left at the system default everywhere (no abortive close). A websocket read limit admits the largest message the tunnel's own Write sends (R17.10).",
+      "before closing its communicator on every live-session path. no per-channel failure path closes the session shared by the other channels. a reader+writer pair closes its write half on every path; after the first copier reported no close waits for the second report; every Write reports the full count on success; Structural, not a delivery proof. A deadline armed on a connection is disarmed in both directions before the connection lives on (a left-over write deadline loses the target's answer and the end-of-stream). SO_LINGER is left at the system default everywhere (no abortive close). A websocket read limit admits the largest message the tunnel's own Write sends (R17.10). Sequence and ack numbers of the DNS carrier are used only in wrap-safe ways: a transfer crossing 65536 chunks still drains and ends (R17.11).",
       "Not decided: timing, half-close, smux FIN ordering, waking a reader blocked in the DNS in-queue.")
 
 claim("C04",
@@ -51,7 +51,7 @@ claim("C04",
       "successful crypto/tls handshake (directly or via a helper whose success returns are so dominated) and the TLS connection is what is returned; "
       "once StartTLS is requested both roles return the TLS connection or an error, never the plain connection; StartTLS is advertised only under "
       "!secure; the secure argument of AcceptConnection/NewClientConnection can be true only with a TLS-built carrier (tls.Dial/Listen/ServeTLS/"
-      "handshake/TLSConfig/scheme tests). Connect never rewrites the configured scheme, so a reconnect of a +tls upstream is a TLS connect again. the --secure option reaches MustSecure and every Upstream.Connect unchanged; Does not observe the wire. A server whose TLS configuration demands client certificates completes no clear-text session, and that demand survives a configuration that cannot be loaded. The secure argument of the server handshake is the listener's own flag, never peer-supplied data; the client takes every StartTLS offer made on an insecure carrier (or fails). Header lists are split without leaving optional white space on the elements, so a StartTLS offer is recognised however the list is written (R04.12).",
+      "handshake/TLSConfig/scheme tests). Connect never rewrites the configured scheme, so a reconnect of a +tls upstream is a TLS connect again. the --secure option reaches MustSecure and every Upstream.Connect unchanged; Does not observe the wire. A server whose TLS configuration demands client certificates completes no clear-text session, and that demand survives a configuration that cannot be loaded. The secure argument of the server handshake is the listener's own flag, never peer-supplied data; the client takes every StartTLS offer made on an insecure carrier (or fails). Header lists are split without leaving optional white space on the elements, so a StartTLS offer is recognised however the list is written (R04.12). No certificate manager answers (nil, nil): an endpoint configured for TLS cannot silently skip its TLS step (R04.13).",
       "Not decided: clear-text payload on the wire, crypto/tls itself.")
 
 claim("C05",
@@ -60,7 +60,7 @@ claim("C05",
       "the stdio+tls branch) and no verification callbacks exist; every success path of the server config with requireClientCert stores "
       "RequireAndVerifyClientCert and the config is never dereferenced on the failure path; a configured CA reaches RootCAs and ClientCAs; the StartTLS "
       "ServerName is the port-less host at every call site; every TLS primitive takes its config from the manager; both ends of a password-protected UDP "
-      "endpoint agree on KDF constants, salt scheme, cipher constructor, shards, and pass the cipher on. GetTlsConfig returns a fresh object on every call (callers set ServerName / InsecureSkipVerify on it). the CA pool is a fresh empty pool plus the configured CA only; the server handshake returns a non-TLS connection only where the ClientAuth-derived requirement flag is false or the carrier is secure; a tls.Dial to a resolved address has ServerName set from the upstream Hostname() on every path. the role-less base cert.Config is never used as a certificate manager outside package cert; the ClientAuth-derived requirement flag is stored (and not as constant false) on every successful path after the handshake asked the manager for its configuration, its failure included; Structural; chain validation is crypto/x509's. The already-encrypted shortcut of the server handshake is taken only on the listener's own TLS flag, never on peer-supplied data such as a proxy header. No TLS configuration the client builds enables session resumption (a resumed session is not checked against the CA configured now).",
+      "endpoint agree on KDF constants, salt scheme, cipher constructor, shards, and pass the cipher on. GetTlsConfig returns a fresh object on every call (callers set ServerName / InsecureSkipVerify on it). the CA pool is a fresh empty pool plus the configured CA only; the server handshake returns a non-TLS connection only where the ClientAuth-derived requirement flag is false or the carrier is secure; a tls.Dial to a resolved address has ServerName set from the upstream Hostname() on every path. the role-less base cert.Config is never used as a certificate manager outside package cert; the ClientAuth-derived requirement flag is stored (and not as constant false) on every successful path after the handshake asked the manager for its configuration, its failure included; Structural; chain validation is crypto/x509's. The already-encrypted shortcut of the server handshake is taken only on the listener's own TLS flag, never on peer-supplied data such as a proxy header. No TLS configuration the client builds enables session resumption (a resumed session is not checked against the CA configured now). A websocket is dialled with the verdict 'not secure' (no TLS configuration for gorilla) only where the scheme is known not to be wss (R05.14).",
       "Not decided: x509 chain validation and expiry, kcp cipher behaviour.")
 
 claim("C03",
@@ -79,7 +79,7 @@ claim("C06",
       "non-empty negotiated version), server upgrade (parsed, GET, Connection: upgrade, Upgrade == socketace/<negotiated>; failed checks re-bind the "
       "response to a literal whose constant status != 101, evaluated per path), NewServerConnection (both succeeded), negotiateVersion (a supported "
       "element equal to a client element), client (200 / 101 only); and that exactly one buffered reader exists per connection and handshake reads go "
-      "through it, and textproto readers are fed only by that reader, every index/slice expression of the handshake packages is proven in bounds for all peer input (linear-inequality entailment from dominating comparisons and strings.Index contracts, Fourier-Motzkin refutation) — the structural part of the no-crash clause; so the outcome cannot depend on segmentation. No header is written into the nil map of a request/response object built on the same path.",
+      "through it, and textproto readers are fed only by that reader, every index/slice expression of the handshake packages is proven in bounds for all peer input (linear-inequality entailment from dominating comparisons and strings.Index contracts, Fourier-Motzkin refutation) — the structural part of the no-crash clause; so the outcome cannot depend on segmentation. No header is written into the nil map of a request/response object built on the same path. Every explicit panic of the handshake code guards a write to an in-memory buffer, never a writer on the peer's connection (R06.7).",
       "Not decided: net/textproto on arbitrary bytes, header size limits, panics other than index/slice bounds.")
 
 claim("C01",
@@ -88,7 +88,7 @@ claim("C01",
       "the caller's buffer is small and every partial copy stores its remainder back on all paths; BufferedInputConnection.Read delegates to the "
       "bufio.Reader, connections returned by the handshake functions derive from the buffered connection and neither the raw carrier nor the embedded "
       "unbuffered connection is used again; PipeData starts one copier per direction and each reaches io.Copy* with its own reader/writer; both smux "
-      "configurations start from DefaultConfig with MaxFrameSize inside smux's range. every Write([]byte) reports len(p) of the buffer as passed (or the delegate's count) on success and the websocket writer forwards the whole buffer. every serving goroutine works on the connection accepted for it (loop-variable escape); buffers written under a mutex are written under one common mutex at every write site (static lockset consistency); a websocket read limit admits the largest message the tunnel itself sends; Not byte equality. A deadline armed on a connection is disarmed in both directions (or the connection closed) on every path on which the connection lives on as a session — arming and disarming may sit in different functions. A logical connection is piped to the channel whose exact name was negotiated. No codec of the DNS carrier gives ascii85.Decode less than worst-case room (R01.12).",
+      "configurations start from DefaultConfig with MaxFrameSize inside smux's range. every Write([]byte) reports len(p) of the buffer as passed (or the delegate's count) on success and the websocket writer forwards the whole buffer. every serving goroutine works on the connection accepted for it (loop-variable escape); buffers written under a mutex are written under one common mutex at every write site (static lockset consistency); a websocket read limit admits the largest message the tunnel itself sends; Not byte equality. A deadline armed on a connection is disarmed in both directions (or the connection closed) on every path on which the connection lives on as a session — arming and disarming may sit in different functions. A logical connection is piped to the channel whose exact name was negotiated. No codec of the DNS carrier gives ascii85.Decode less than worst-case room (R01.12). The reassembly of a multi-record DNS answer sorts by keys read from the records being sorted (R01.13).",
       "Not decided: equality of delivered bytes, library behaviour (smux, gorilla, kcp, crypto/tls), partial writes.")
 
 claim("C16",
@@ -97,7 +97,7 @@ claim("C16",
       "upstreams are tried as Data[0], Data[1], ... with failure continuing and the first success returning, no reordering helper; the shared "
       "connection/session are stored only while the upstream mutex is held (directly or in helpers called only under it) and a new physical "
       "connection is opened only under connection == nil || connection.Closed() inside the critical section; GetTlsConfig is fresh per attempt so one upstream's ServerName cannot leak into the next attempt; the reuse test is evaluated inside the lock region; the flag-carrying wrappers' Close marks them closed on every path (the reuse test reads Closed()); an upstream counts as secure only over a TLS-built carrier or a TLS scheme; a deadline/timer must precede the "
-      "blocking client handshake in every Upstream.Connect (violated on the pinned tree at all five: recorded known findings). On every path on which the last Upstream.Connect of the failover loop returned nil the error returned is nil, that call's result or produced after it. If the direct dial is guarded by scheme tests, every stream network net.Dial knows reaches it. Whenever the reuse test finds no usable session, Connect runs the round over the upstreams: no path (hold-off, back-off) turns a local connection away untried (R16.10); the reuse guard is followed through helpers that wrap open().",
+      "blocking client handshake in every Upstream.Connect (violated on the pinned tree at all five: recorded known findings). On every path on which the last Upstream.Connect of the failover loop returned nil the error returned is nil, that call's result or produced after it. If the direct dial is guarded by scheme tests, every stream network net.Dial knows reaches it. Whenever the reuse test finds no usable session, Connect runs the round over the upstreams: no path (hold-off, back-off) turns a local connection away untried (R16.10); the reuse guard is followed through helpers that wrap open(). Connect never rewrites the upstream's configured address, so the next attempt on the same upstream dials what was configured (R16.11).",
       "Not decided: numeric time bounds, OS connect time-outs, reconnect after loss (smux keep-alive timing).")
 
 claim("C18",
@@ -106,7 +106,7 @@ claim("C18",
       "dispatchers, each switch has an error-returning default, a dispatcher that switches on an expression computed from the scheme is rejected; sibling switches agree; every implementation chosen for a +tls scheme sets its "
       "secure flag on every successful +tls path and ProtoAddress.Addr covers the admitted socket/packet schemes; all Unmarshal{YAML,JSON,Flag} "
       "forms of a configuration type reach the same dispatcher (Channels.UnmarshalFlag does not: recorded known finding); no upstream's Connect (or a helper it calls on its receiver) writes any field of the configured address — scheme, credentials, host — so every reconnect interprets the same address; dispatchers may be switch statements or map[string]constructor tables with a comma-ok miss branch; no unchecked type assertion on decoded configuration data that valid input can reach; no maybe-nil pointer is "
-      "dereferenced unguarded in the parsing cone. An upstream counts as an encrypted transport only over a TLS-built carrier or under a test for a TLS scheme. No parsing function returns a nil object together with a possibly-nil error. However the DNS server is started, a +tls endpoint gets a TLS listener: ListenAndServe, or ActivateAndServe on a listener from crypto/tls (R18.9).",
+      "dereferenced unguarded in the parsing cone. An upstream counts as an encrypted transport only over a TLS-built carrier or under a test for a TLS scheme. No parsing function returns a nil object together with a possibly-nil error. However the DNS server is started, a +tls endpoint gets a TLS listener: ListenAndServe, or ActivateAndServe on a listener from crypto/tls (R18.9). Startup, which consumes the +tls marker of its configured address in place, is never called in a loop on one server object (R18.10).",
       "Not decided: net/url parsing, the yaml/reflection bridge, arbitrary malformed strings. README table is transcribed in the checker.")
 
 claim("C07",
@@ -124,7 +124,7 @@ claim("C13",
       "share one critical section; in every handler all stores to the session, calls on its queues and closeConnection are on the err==nil edge of "
       "validateAndGetUser(request id, source address), which itself updates last-contact only after the address comparison and succeeds only for the owner's "
       "address; a table slot is cleared only for a session read from that same table; closeConnection clears the live slot only after a pointer-identity test "
-      "with its occupant. The table size equals the user-id modulus of the wire format. Address equality is full String() equality (directly or via a helper summarised as such); the client adopts a user id only from an error-free version answer. Memory taken from a sync.Pool never ends up in a decoded request, a parked packet or a stream. A version answer names a session created for that very request. A retired session's record decides an answer only where the live slot has been found empty (identifiers are reused).",
+      "with its occupant. The table size equals the user-id modulus of the wire format. Address equality is full String() equality (directly or via a helper summarised as such); the client adopts a user id only from an error-free version answer. Memory taken from a sync.Pool never ends up in a decoded request, a parked packet or a stream. A version answer names a session created for that very request. A retired session's record decides an answer only where the live slot has been found empty (identifiers are reused). The session identifier is decoded in arithmetic wide enough for every identifier handed out: no 8-bit arithmetic widened afterwards (R13.10).",
       "Not decided: interleavings of the unlocked table reads on the message path, expiry timing.")
 
 claim("C12",
@@ -133,7 +133,7 @@ claim("C12",
       "and the client's answer decoder both run under a deferred recover() installed before any message-derived work; every invoked func-typed field of "
       "the command table is non-nil in all entries or nil-tested before each call; client-requested sizes reach allocations / the stored fragment size "
       "only on paths with constant upper (and, for the stride, positive lower) bounds; the answer decoder turns a recovered panic into a non-nil named error result; handlers touch session state only after the owner check; an error answer always decodes to a non-nil error; parked out-of-order packets are bounded by the window test; every data-driven loop in the untrusted cone changes a loop-carried "
-      "exit variable on every cyclic path. Every Lock in the DNS endpoint is released on every path out of the function (R12.10).",
+      "exit variable on every cyclic path. Every Lock in the DNS endpoint is released on every path out of the function (R12.10). An error answer's Err is provably non-nil on every successful decode, through helpers (R12.9); a codec detection step always leaves a codec stored (R12.11).",
       "Not decided: numeric time/allocation bounds, miekg's own parsing, unrecoverable runtime errors. miekg's one-question rule and lack of recover are trusted facts.")
 
 claim("C08",
@@ -142,7 +142,7 @@ claim("C08",
       "table has radix-many pairwise distinct symbols, none a dot, backslash, space or control character; FromCode's registry lists every codec, codes are "
       "distinct upper-case constants; table-driven codecs encode and decode with the same encoding object; Base85's substitutions cover the forbidden bytes "
       "ascii85 can emit, land outside ascii85's alphabet and are inverted by Decode; the byte counts returned by ascii85.Encode/Decode cut the buffer. "
-      "ascii85.Decode is given 4*len+4 bytes of room or its consumed count is inspected; every declared codec ratio is >= the radix-derived lower bound. substitution tables given as strings.NewReplacer pairs are read too and must be byte-for-byte; Encode/Decode results are memory of their own (no pool/global/field); for every selectable codec whose output length is a function of the input length under the length abstraction (Base128, Raw), Decode accepts exactly the lengths Encode produces and returns the input length, for input lengths 0..64 and by the period of the abstract loop state beyond. This is the structural minority of the property. A presized result buffer of a packer is written completely on every path (an untouched element is a zero byte). No codec takes a single Read of a stream decoder for the whole input. Encode and Decode (helpers included) never store into the backing array of their argument.",
+      "ascii85.Decode is given 4*len+4 bytes of room or its consumed count is inspected; every declared codec ratio is >= the radix-derived lower bound. substitution tables given as strings.NewReplacer pairs are read too and must be byte-for-byte; Encode/Decode results are memory of their own (no pool/global/field); for every selectable codec whose output length is a function of the input length under the length abstraction (Base128, Raw), Decode accepts exactly the lengths Encode produces and returns the input length, for input lengths 0..64 and by the period of the abstract loop state beyond. This is the structural minority of the property. A presized result buffer of a packer is written completely on every path (an untouched element is a zero byte). No codec takes a single Read of a stream decoder for the whole input. Encode and Decode (helpers included) never store into the backing array of their argument. Package-level codec tables are complete before any use: built by a package initialiser, or under sync.Once with every read after the Do (R08.12).",
       "Not decided (most of the property): equality of the decoded contents and expansion bounds of the arithmetic/bit-packing codecs, library codecs' behaviour; Base192 (registered, never selected by this module, its own test disabled) is outside the claim.")
 
 claim("C11",
@@ -151,7 +151,7 @@ claim("C11",
       "on err==nil; version handshake only with a preset or successfully detected query type) and Handshake succeeds only after the mandatory steps returned nil; "
       "every candidate codec is registered and every upstream candidate has a test pattern; the fragment-probe generator and checker use equal constants and both "
       "ends use the single DownloadCodecCheck; a candidate codec / query type is committed only on the no-error edge of its own probe (facts established after the candidate was picked); the upstream fragment size is recomputed after the last step that can change the upstream codec; the fragment size recorded as working is the very value that was probed; every loop in Handshake's synchronous cone changes a loop-carried exit variable on every cyclic path; every codec "
-      "assigned to the upstream direction without a probe is injective under ASCII case folding. Every Unlock in the DNS client releases a mutex held on every path reaching it (an unlock of an unlocked mutex ends the process instead of reporting a failed handshake). The step that commits a probed value reports a failed exchange with the server as a failure. The regular expressions of the server's name unescaper are anchored, so what the probed codec sent is what is decoded whatever the payload (R11.11).",
+      "assigned to the upstream direction without a probe is injective under ASCII case folding. Every Unlock in the DNS client releases a mutex held on every path reaching it (an unlock of an unlocked mutex ends the process instead of reporting a failed handshake). The step that commits a probed value reports a failed exchange with the server as a failure. The regular expressions of the server's name unescaper are anchored, so what the probed codec sent is what is decoded whatever the payload (R11.11). A codec detection step never stores a codec whose probe failed on that path and never returns, connection open, without having stored one (R11.13); the dot inserter never leaves an empty label for any fragment size (R11.12).",
       "Not decided: 'probe passed => data works on that path', 8-bit mangling, size limits, lost replies to a commit.")
 
 claim("C09",
@@ -161,7 +161,7 @@ claim("C09",
       "for the constants written; both sides use the same codec object, matching header helpers and one byte order; the 1+3(+2) header is emitted and "
       "stripped with equal constants under the same flag, user ids are base-36, 2 characters, modulo 36^2; dot insertion <= 63, dotting threshold <= 63, "
       "the dot inserter is proven (linear entailment along paths) to emit pieces of at most 63 octets and a non-empty piece after every dot; no consuming step of the name unescaper is guarded more strictly than its width; names bounded from 253 and every question name comes from PrepareHostname under err==nil; command codes are distinct under case folding and the "
-      "cache-busting alphabet is lower-case letters and digits. The cache-busting header part has a fixed width for every value it can take (a formatted counter's range fits its padded width). The regular expressions that decide the width of an unescaping step are anchored at the start.",
+      "cache-busting alphabet is lower-case letters and digits. The cache-busting header part has a fixed width for every value it can take (a formatted counter's range fits its padded width). The regular expressions that decide the width of an unescaping step are anchored at the start. The server's decoder of the Base85 upstream codec gives ascii85.Decode worst-case room (R09.7); base and width of the user id are read from hand-written digit arithmetic too.",
       "Not decided: size budget (float/codec ratio) vs. name limit for every payload, miekg escaping of 8-bit output, value equality for all field values.")
 
 claim("C10",
@@ -169,7 +169,7 @@ claim("C10",
       "Decides the agreement structure of response carriage: response Encode/Decode layouts agree (widths, fields, tag constants, codec object, byte order); "
       "the record types constructed by the Wrap* functions equal the case sets of the reassembly and ordering type switches and the dispatcher covers every "
       "selectable query type; per record type the order-tag bytes prepended equal the prefix stripped; tag + chunk fills A (4) and AAAA (16) exactly; CNAME, MX "
-      "and SRV targets are built by PrepareHostname; no character-set trimming in the reassembly cone; per-record payload constants stay within the record type's capacity; no capacity guard in a Wrap* function is decided by its operand type alone and narrowing conversions there are proven in range; a wrapping helper never appends to a slice parameter that a caller fills with a sub-slice of a longer buffer; a message whose construction returned an error is never written to the wire; the private RR type registered with miekg equals the type emitted and queried. Memory taken from a sync.Pool is never stored into a field/element nor returned (a record is packed after the wrapping function returned). Every sort.Slice comparator of the reassembly indexes the slice being sorted. ascii85.Decode of a downstream answer has worst-case room or its consumed count is checked (R10.14).",
+      "and SRV targets are built by PrepareHostname; no character-set trimming in the reassembly cone; per-record payload constants stay within the record type's capacity; no capacity guard in a Wrap* function is decided by its operand type alone and narrowing conversions there are proven in range; a wrapping helper never appends to a slice parameter that a caller fills with a sub-slice of a longer buffer; a message whose construction returned an error is never written to the wire; the private RR type registered with miekg equals the type emitted and queried. Memory taken from a sync.Pool is never stored into a field/element nor returned (a record is packed after the wrapping function returned). Every sort.Slice comparator of the reassembly indexes the slice being sorted. ascii85.Decode of a downstream answer has worst-case room or its consumed count is checked (R10.14). A record buffer of constant size is written completely on every path: records are never zero-padded (R10.15).",
       "Not decided: miekg Pack/Unpack (escaping, TXT limits), capacity for all payload lengths, tag arithmetic beyond 512 records.")
 
 for pid in ["C01","C02","C03","C04","C05","C06","C07","C08","C09","C10","C11","C12","C13","C14","C15","C16","C17","C18"]:
